@@ -154,6 +154,118 @@ def agent_level(chk):
     return fails
 
 
+def agent_stop_on_close(chk):
+    ''' Several contacts on one agent, one of them closes (its peer terminates it) while another has a transfer
+    in progress: the other contact is not touched, whatever stop_on_close says; the agent stops only after its
+    last contact closed. '''
+    import dbus
+    from gi.repository import GLib
+    import tcpcl.agent
+    import tcpcl.config
+    from tcpcl_drive import FakeSock
+    fails = []
+    for ncontacts in (2, 3):
+        for soc in (False, True):
+            for closer in ('peer-terminate', 'own-terminate', 'peer-disconnect'):
+                GLib.CTX.reset()
+                del dbus.service.EVENT_LOG[:]
+                bus = dbus.bus.BusConnection()
+                cfgs = []
+                agents = []
+                for name in ('a', 'b'):
+                    cfg = tcpcl.config.Config(tls_enable=False, node_id='dtn://%s/' % name, stop_on_close=soc,
+                                              segment_size_tx_initial=5)
+                    cfg._bus_conn = bus
+                    cfgs.append(cfg)
+                    agents.append(tcpcl.agent.Agent(cfg, bus_kwargs=dict(conn=bus, object_path='/ag' + name)))
+                stopped = []
+                agents[0].set_on_stop(lambda: stopped.append(True))
+                pairs = []
+                for idx in range(ncontacts):
+                    sa = FakeSock('a%d' % idx, ('10.0.0.1', 40000 + idx))
+                    sb = FakeSock('b%d' % idx, ('10.0.0.2', 4556))
+                    sa.peer = sb
+                    sb.peer = sa
+                    ha = agents[0]._bind_handler(config=cfgs[0], sock=sa, toaddr=('10.0.0.2', 4556))
+                    hb = agents[1]._bind_handler(config=cfgs[1], sock=sb, fromaddr=('10.0.0.1', 40000 + idx))
+                    ha.start()
+                    hb.start()
+                    pairs.append((ha, hb, sa, sb))
+
+                def pump(only=None, limit=4000):
+                    for _ in range(limit):
+                        progress = False
+                        for src in list(GLib.CTX.sources.values()):
+                            own = src.owner
+                            if only is not None and own not in only:
+                                continue
+                            if src.sid not in GLib.CTX.sources:
+                                continue
+                            if src.kind == 'idle':
+                                if src.name == '_process_queue' and not getattr(own, '_in_sess', True):
+                                    continue
+                                GLib.CTX.run(src)
+                                progress = True
+                            elif src.kind == 'io' and src.cond == GLib.IO_IN and src.sock is not None and not src.sock.closed \
+                                    and (src.sock.inbox or src.sock.eof):
+                                GLib.CTX.run(src)
+                                progress = True
+                            elif src.kind == 'io' and src.cond == GLib.IO_OUT and (
+                                    getattr(own, '_Messenger__tx_buf', b'') or getattr(own, '_Connection__tx_buf', b'')):
+                                GLib.CTX.run(src)
+                                progress = True
+                        if not progress:
+                            break
+
+                pump()
+                tag = 'contacts=%d/stop_on_close=%s/%s' % (ncontacts, soc, closer)
+                # a 60-octet bundle in 5-octet segments on the LAST contact, a few segments under way
+                (ha_busy, hb_busy, sa_busy, sb_busy) = pairs[-1]
+                payload = bytes(range(60))
+                ha_busy.send_bundle_data(payload)
+                pump(only={ha_busy, hb_busy}, limit=3)
+                # contact #0 closes
+                (ha0, hb0, sa0, sb0) = pairs[0]
+                try:
+                    if closer == 'peer-terminate':
+                        hb0.terminate(0)
+                    elif closer == 'own-terminate':
+                        ha0.terminate(0)
+                    else:
+                        hb0.close()
+                    pump(only={ha0, hb0})
+                except Exception as err:
+                    fails.append(('C09 / closing one contact raised', '%s: %s %s' % (tag, err.__class__.__name__, err)))
+                if not sa0.closed:
+                    fails.append(('C09 / terminated contact not closed', tag))
+                pump()
+                for (idx, (ha, hb, sa, sb)) in enumerate(pairs[1:], 1):
+                    if sa.closed or sb.closed:
+                        fails.append(('C09 / closing one contact tore down another contact of the same agent',
+                                      '%s: contact #%d closed although nobody terminated it' % (tag, idx)))
+                got = [bytes(hb_busy.recv_bundle_pop_data(bid)) for bid in list(hb_busy.recv_bundle_get_queue())] \
+                    if not sb_busy.closed or hb_busy._rx_bundles else []
+                if got != [payload]:
+                    fails.append(('C09 / transfer in progress on another contact did not complete when one contact closed',
+                                  '%s: received %s' % (tag, [len(x) for x in got])))
+                if stopped:
+                    fails.append(('C09 / agent stopped while a contact was still open', tag))
+                # now the graceful shutdown of what remains
+                try:
+                    agents[0].shutdown()
+                except Exception as err:
+                    fails.append(('C09 / Agent.shutdown raised', '%s: %s %s' % (tag, err.__class__.__name__, err)))
+                pump()
+                for (idx, (ha, hb, sa, sb)) in enumerate(pairs):
+                    if not sa.closed or not sb.closed:
+                        fails.append(('C09 / Agent.shutdown left a session open', '%s: contact #%d' % (tag, idx)))
+                if not stopped:
+                    fails.append(('C09 / agent does not stop after its last session closed', tag))
+                chk.count('agent_stop_on_close', tag)
+                chk.case(ident=('agent-stop-on-close', tag), nontrivial=True, sample=dict(agent_level=tag))
+    return fails
+
+
 def build(chk):
     recs = []
     positions = list(range(0, 40, 3)) if chk.quick() else list(range(0, 80))
@@ -192,7 +304,7 @@ def build(chk):
 
 
 def evaluate(chk, recs):
-    for (sig, what) in agent_level(chk):
+    for (sig, what) in agent_level(chk) + agent_stop_on_close(chk):
         chk.fail(sig, what, dict(kind='agent-level', what=what))
     for rec in recs:
         terms = sum(1 for e in 'AB' for f in TS.decode_stream(rec.wire[e])[0] if f['t'] == 'term')
@@ -212,4 +324,8 @@ if __name__ == '__main__':
     TS.run_check('C09', build, evaluate,
                  rule='a fixed three-bundle two-way workload with terminate() on A, B or both inserted at every position of a '
                       'round-robin schedule (full writes, 1-octet writes, 2-octet reads), then drained to quiescence; plus random '
-                      'cooperative schedules with terminate() at random positions; non-trivial = a SESS_TERM reached the wire')
+                      'cooperative schedules with terminate() at random positions; agent-level: 1-3 contacts in every '
+                      'pre-session/established order under shutdown()/stop(), and 2-3 contacts with stop_on_close off/on where one '
+                      'contact closes (peer terminates, own terminate, peer disconnect) while another has a transfer in progress; '
+                      'non-trivial = a SESS_TERM reached the wire',
+                 extra_props=('Props/TcpclTie.v', 'Props/C09agent.v'))
